@@ -647,7 +647,12 @@ class Exec:
                 return h(self, a, kwargs)
             return self.call_funcv(f, args, kwargs)
         if isinstance(f, LibFn):
-            return f.impl(self, *args, **kwargs)
+            try:
+                return f.impl(self, *args, **kwargs)
+            except TypeError as e:
+                if "argument" in str(e) and ("positional" in str(e) or "keyword" in str(e)):
+                    raise OutOfSubset(f"call signature of {f.name} not modelled: {e}") from None
+                raise
         if isinstance(f, OpaqueFn):
             if f.on_call:
                 return f.on_call(self, f, args, kwargs)
